@@ -344,6 +344,92 @@ Proof.
   - intros [i Hi]. eauto.
 Qed.
 
+(* ---------------------------------------------------------------- the side conditions, stated on the object graph *)
+Definition wf_src_obj (S : schema) (o : obj) : bool :=
+  znodupb (chain S (ocls o)) &&
+  Nat.eqb (length (oscal o)) (sum_ncols S (chain S (ocls o))) &&
+  zlist_eqb (map fst (oflds o)) (fields S (ocls o)) &&
+  znodupb (fields S (ocls o)) &&
+  forallb (fun f : fld => is_coll (fst f) || Nat.leb (length (snd f)) 1) (oflds o).
+(* the object graph fits the schema: classes have NoDup table chains, scalars fill the chain's data columns, the
+   reference fields are the mapper's relationships, single references hold at most one target *)
+Definition wf_src (S : schema) (l : lheap) : bool := forallb (fun p : addr * obj => wf_src_obj S (snd p)) l.
+(* the fragment on the object graph: no collection with a repeated element, no value in a self-referential single reference *)
+Definition F05_src (S : schema) (l : lheap) : bool := forallb (fun p : addr * obj => F05_obj S (snd p)) l.
+
+Lemma Forall2_fst_eq (R : addr -> addr -> Prop) fl fl' : Forall2 (fld_rel R) fl fl' -> map fst fl = map fst fl'.
+Proof. induction 1 as [|f f' r r' [Ht _] _ IH]; simpl; congruence. Qed.
+
+Lemma Forall2_len {A B} (R : A -> B -> Prop) l l' : Forall2 R l l' -> length l = length l'.
+Proof. induction 1; simpl; congruence. Qed.
+
+Lemma NoDup_nodupb l : NoDup l -> nodupb l = true.
+Proof.
+  induction 1 as [|x l Hx _ IH]; simpl; auto. rewrite IH, andb_true_r. apply negb_true_iff.
+  destruct (memb x l) eqn:E; auto. apply memb_In in E. contradiction.
+Qed.
+
+Lemma NoDup_Forall2 (R : addr -> addr -> Prop) l l' :
+  (forall a a' b, R a b -> R a' b -> a = a') -> Forall2 R l l' -> NoDup l -> NoDup l'.
+Proof.
+  intros Hinj H. induction H as [|x y l l' Hxy Hl IH]; intros Hnd; constructor; inversion Hnd; subst; auto.
+  intros Hin. destruct (Forall2_In_r _ _ _ _ Hl Hin) as [x' [Hx' Hr]].
+  assert (x' = x) by (eapply Hinj; eauto). subst. contradiction.
+Qed.
+
+Lemma conditions_transfer S alts l r dr s1 :
+  wf_heap l r = true -> F04 alts l = true -> to_dao alts l r = Some (dr, s1) ->
+  wf_src S l = true -> F05_src S l = true ->
+  wf_dao S (dst s1) (nxt s1) = true /\ F05 S (dst s1) (nxt s1) = true.
+Proof.
+  intros Hwf HF Hto Hws HFs. unfold to_dao in Hto.
+  assert (Hc1 : forall a o, heap_of l a = Some o -> p_cmap (P_todao alts) (ocls o) = ocls o).
+  { intros a o Ho. simpl. now rewrite (proj1 (F04_cls alts l a o HF Ho)). }
+  destruct (wf_walk_iso (P_todao alts) l r (fun _ _ _ => eq_refl) Hc1 Hwf) as [d' [s1' [E1 [I1 [M1 [D1 _]]]]]].
+  rewrite Hto in E1. inversion E1; subst d' s1'. clear E1.
+  destruct I1 as [J1 [J2 [J3 _]]].
+  unfold wf_src in Hws. unfold F05_src in HFs. rewrite forallb_forall in Hws, HFs.
+  assert (Hy : forall y, In y (seq 0 (nxt s1)) -> exists o fl', In o (map snd l) /\
+             dst s1 y = Some (mkObj (ocls o) (oscal o) fl') /\ Forall2 (fld_rel (krel s1)) (oflds o) fl').
+  { intros y Hy. apply in_seq in Hy. destruct (J3 y) as [x Hx]; [lia|].
+    destruct (D1 _ _ Hx) as [o [fl' [Ho [Hd Hf]]]]. exists o, fl'. split; [|split; auto].
+    - apply assoc_Some_In in Ho. apply in_map_iff. exists (x, o). auto.
+    - rewrite Hd. now rewrite (Hc1 _ _ Ho). }
+  split; unfold wf_dao, F05; apply forallb_forall; intros y Hyin;
+    destruct (Hy y Hyin) as [o [fl' [Hin [Hd Hf]]]]; rewrite Hd;
+    apply in_map_iff in Hin; destruct Hin as [[x o'] [Eo Hin]]; simpl in Eo; subst o'.
+  - specialize (Hws _ Hin). simpl in Hws. unfold wf_src_obj in Hws. unfold wf_dao_obj. simpl.
+    repeat (apply andb_true_iff in Hws; destruct Hws as [Hws ?]).
+    rewrite <- (Forall2_fst_eq _ _ _ Hf). rewrite Hws, H2, H1, H0. simpl.
+    apply forallb_forall. intros f' Hf'. destruct (Forall2_In_r _ _ _ _ Hf Hf') as [f [Hfin [Ht Hk]]].
+    rewrite forallb_forall in H. specialize (H _ Hfin). rewrite <- Ht, <- (Forall2_len _ _ _ Hk), H. simpl.
+    apply forallb_forall. intros k Hkin. destruct (Forall2_In_r _ _ _ _ Hk Hkin) as [k0 [_ Hk0]].
+    apply Nat.ltb_lt. eapply J1; eauto.
+  - specialize (HFs _ Hin). simpl in HFs. unfold F05_obj in *. simpl. rewrite forallb_forall in HFs.
+    apply forallb_forall. intros f' Hf'. destruct (Forall2_In_r _ _ _ _ Hf Hf') as [f [Hfin [Ht Hk]]].
+    specialize (HFs _ Hfin). rewrite <- Ht. destruct (is_coll (fst f)).
+    + apply NoDup_nodupb. eapply NoDup_Forall2; [|exact Hk|now apply nodupb_NoDup].
+      intros a a' b H1 H2. unfold krel in *. eauto.
+    + destruct (is_selfref S (fst f)); auto. destruct (snd f); [|discriminate]. inversion Hk. reflexivity.
+Qed.
+
+(* C05 with every hypothesis about the input: graph g over the schema, in F04 and F05; any key assignment that is
+   injective on the DAOs of a hierarchy *)
+Theorem reload_iso_src S alts pk l r :
+  wf_heap l r = true -> F04 alts l = true -> wf_src S l = true -> F05_src S l = true ->
+  exists dr s1, to_dao alts l r = Some (dr, s1) /\
+    ((forall a b, a < nxt s1 -> b < nxt s1 -> K S (dst s1) pk a = K S (dst s1) pk b -> a = b) ->
+     exists r' s2, reload S alts pk l r = Some (r', s2) /\ iso (dst s2) r' (heap_of l) r).
+Proof.
+  intros Hwf HF Hws HFs.
+  assert (Hc1 : forall a o, heap_of l a = Some o -> p_cmap (P_todao alts) (ocls o) = ocls o).
+  { intros a o Ho. simpl. now rewrite (proj1 (F04_cls alts l a o HF Ho)). }
+  destruct (wf_walk_iso (P_todao alts) l r (fun _ _ _ => eq_refl) Hc1 Hwf) as [dr [s1 [E1 _]]].
+  exists dr, s1. split; [exact E1|]. intros Hinj.
+  destruct (conditions_transfer S alts l r dr s1 Hwf HF E1 Hws HFs) as [Hwd HF5].
+  eapply reload_iso; eauto.
+Qed.
+
 (* ---------------------------------------------------------------- what the correspondence evaluates *)
 Definition pk_id (base : nat) (a : addr) : nat := base + a.
 
